@@ -27,7 +27,7 @@ func (c *Conn) Sendfile(f *os.File, remain int64) (int64, error) {
 
 	c.mux.Lock()
 	defer c.mux.Unlock()
-	if c.closed {
+	if c.closed || c.closeAfterFlush {
 		return 0, net.ErrClosed
 	}
 
